@@ -97,7 +97,12 @@ pub fn check_position(ctx: &mut Ctx, s: &Step, full_sweep_one_in: u64) -> Result
     cands.extend(illegal_pseudo);
     for m in &legal {
         match m.promo {
-            Some(_) => cands.push(Mv::new(m.from, m.to, None)),
+            Some(_) => {
+                cands.push(Mv::new(m.from, m.to, None));
+                // impossible promotion pieces are move values too
+                cands.push(Mv::new(m.from, m.to, Some(Kind::K)));
+                cands.push(Mv::new(m.from, m.to, Some(Kind::P)));
+            }
             None => {
                 for k in PROMOS {
                     cands.push(Mv::new(m.from, m.to, Some(k)));
